@@ -97,6 +97,7 @@ type pcond struct {
 	expr  ast.Expr
 	truth bool
 	loop  bool // comes from a for-loop condition
+	exit  *ast.IfStmt // negation of this early exit
 	text  string // for type-switch cases and comma-ok
 }
 
@@ -185,7 +186,10 @@ func earlyExitConds(list []ast.Stmt, upto ast.Node) []pcond {
 			break
 		}
 		if is, ok := st.(*ast.IfStmt); ok && is.Else == nil && terminates(is.Body) {
-			out = append(out, splitCond(is.Cond, false)...)
+			for _, c := range splitCond(is.Cond, false) {
+				c.exit = is
+				out = append(out, c)
+			}
 		}
 	}
 	return out
